@@ -101,10 +101,12 @@ def allocLoop : Nat → AState → Except AErr (List (Nat × Nat))
         | p :: _ =>
           allocLoop fuel { possible := poss.filter (·.1 != v), allocation := st.allocation ++ [(v, p)], edges := rem }
 
-/-- Interference edges contributed by one output register `d` of an instruction. -/
+/-- Interference edges contributed by one output register `d` of an instruction:
+`out := LiveOut.OfKind(kind d); out.DiscardRegister(d)`; an edge to every id of `out`
+whose mask overlaps `d`'s. -/
 def edgesOf (d : R) (liveOut : MS) : List (Nat × Nat) :=
   let out := discard (ofKind liveOut (idKind d.id)) d.id d.mask
-  (canon out).filterMap (fun p => if d.mask &&& p.2 != 0 then some (d.id, p.1) else none)
+  out.filterMap (fun p => if d.mask &&& MaskSet.get out p.1 != 0 then some (d.id, p.1) else none)
 
 /-- Kinds that get an allocator: those of the operand registers and of the
 (possibly implicit) output registers, which take part in interferences. -/
